@@ -1147,3 +1147,72 @@ Proof.
   - rewrite Z2Nat.id by lia. lia.
   - exists s'. split; [|exact RF']. eapply sx_cons; [|apply sx_nil]. apply sx_Until. exact Xu.
 Qed.
+
+(* ------------------------------------------------------------------ the induction over the AST *)
+Lemma sim_leaf : forall s, sim_of s -> sim_stmt s.
+Proof. intros s H _ L st c st' e e' sg Hl I _ Hev HR. eapply H; eauto. Qed.
+
+Theorem sim_all : (forall s, sim_stmt s) /\ (forall b, sim_block b).
+Proof.
+  apply stmt_block_ind.
+  - intro q. apply sim_leaf, sim_newq.
+  - intros g q. apply sim_leaf, sim_gate.
+  - intros ax q n d. apply sim_leaf, sim_rot.
+  - intros t q1 q2. apply sim_leaf, sim_two.
+  - intros q ip a ix. apply sim_leaf, sim_measfut.
+  - intros q ip a. apply sim_leaf, sim_measnew.
+  - intros q ip r. apply sim_leaf, sim_measreg.
+  - intro q. apply sim_leaf, sim_free.
+  - intros a n init. apply sim_leaf, sim_newarray.
+  - intros a ix o m. apply sim_leaf, sim_futadd.
+  - intros r o m. apply sim_leaf, sim_regadd.
+  - intros r init Hw. discriminate.
+  - intros r o m Hw. discriminate.
+  - intros c cb x y body IH. apply sim_if. exact IH.
+  - intros cb v oreg a b step body IH. apply sim_loop. exact IH.
+  - intros enum v a body IH. apply sim_foreach. exact IH.
+  - intros v mx body IHb cx bound cl IHc. apply sim_until; assumption.
+  - intros k body IH Hw. discriminate.
+  - intro Hw. discriminate.
+  - intros _ L st c st' e e' sg H I HL Hev HR. inv_ok H. inv_ok Hev. exists sg. split; [apply sx_nil|exact HR].
+  - intros s IHs b IHb Hw L st c st' e e' sg H I HL Hev HR. cbn [bwfs] in Hw.
+    apply andb_prop in Hw. destruct Hw as [Hw1 Hw2].
+    destruct (proj1 wfs_plain s Hw1) as [Hp1 He1]. destruct (proj2 wfs_plain b Hw2) as [Hp2 He2].
+    cbn [lower_block] in H.
+    destruct (lower_stmt true s st) as [[c1 s1]|] eqn:H1; cbn [bind] in H; [|discriminate].
+    destruct (lower_block true b s1) as [[c2 s2]|] eqn:H2; cbn [bind] in H; [|discriminate]. inv_ok H.
+    cbn [eval_block] in Hev. destruct (eval_stmt s e) as [em|] eqn:E1; [|discriminate].
+    destruct (proj1 lower_facts s Hp1 He1 _ _ _ H1 I) as [I1 X1].
+    destruct (proj2 lower_facts b Hp2 He2 _ _ _ H2 I1) as [I2 X2].
+    assert (HL1 : sub (l_len s1) L) by (eapply sub_trans; [exact (x_len _ _ X2)|exact HL]).
+    destruct (IHs Hw1 L _ _ _ _ _ _ H1 I HL1 E1 HR) as (sg1 & Xa & R1).
+    destruct (IHb Hw2 L _ _ _ _ _ _ H2 I1 HL Hev R1) as (sg2 & Xb & R2).
+    exists sg2. split; [eapply sx_app; eauto|exact R2].
+Qed.
+
+(* C05, composed per statement: every well-formed statement — gates, qubit allocation and
+   release, measurements into array futures / fresh arrays / register futures, add on futures
+   and register futures, if (six conditions, context or callback), loop / loop_body, foreach /
+   enumerate, loop_until with cleanup, nested arbitrarily — compiles to structured code that takes
+   related controller states to related controller states *)
+Theorem stmt_compile_correct : forall s L st c st' e e' sg,
+  wfs s = true -> lower_stmt true s st = Ok (c, st') -> Inv st -> sub (l_len st') L ->
+  eval_stmt s e = Some e' -> Rel L st e sg ->
+  exists sg', sx c sg sg' /\ Rel L st' e' sg'.
+Proof. intros s L st c st' e e' sg Hw. exact (proj1 sim_all s Hw L st c st' e e' sg). Qed.
+
+Theorem block_compile_correct : forall b L st c st' e e' sg,
+  bwfs b = true -> lower_block true b st = Ok (c, st') -> Inv st -> sub (l_len st') L ->
+  eval_block b e = Some e' -> Rel L st e sg ->
+  exists sg', sx c sg sg' /\ Rel L st' e' sg'.
+Proof. intros b L st c st' e e' sg Hw. exact (proj2 sim_all b Hw L st c st' e e' sg). Qed.
+
+(* the relation holds between the initial states *)
+Lemma Inv_l0 : Inv l0.
+Proof.
+  constructor; cbn; try (intros; discriminate); try constructor.
+Qed.
+Lemma Rel_init : forall script, Rel [] l0 (e0 script) (m0 script).
+Proof.
+  intro script. constructor; cbn; try (intros; discriminate); try reflexivity; try constructor.
+Qed.
